@@ -699,4 +699,8 @@ func safeClose(rep *vh.Report, node *gomavlib.Node) bool {
 }
 
 // aborted reports whether an earlier scenario left a stuck node behind.
-func aborted() bool { return atomic.LoadInt32(&closeStuck) != 0 }
+func aborted() bool { return atomic.LoadInt32(&closeStuck) != 0 || atomic.LoadInt32(&writeStuck) != 0 }
+
+// writeStuck is set when a Write* call of the node was seen not to return (reported as a violation where it was seen): the
+// scenarios that follow would sit in the same call for ever, so they are skipped.
+var writeStuck int32
